@@ -30,6 +30,10 @@ let parse_ops toks =
     | "A" :: d :: r -> cur := OA (ni d) :: !cur; go r
     | "T" :: k :: d :: r -> cur := OT (ni k, z_of_int (int_of_string d)) :: !cur; go r
     | "U" :: k :: d :: r -> cur := OU (ni k, z_of_int (int_of_string d)) :: !cur; go r
+    | "RS" :: k :: f :: r -> cur := ORS (ni k, nati f) :: !cur; go r
+    | "WS" :: k :: f :: r -> cur := OWS (ni k, nati f) :: !cur; go r
+    | "RA" :: k :: f :: n :: r -> cur := ORA (ni k, nati f, ni n) :: !cur; go r
+    | "WA" :: k :: f :: n :: r -> cur := OWA (ni k, nati f, ni n) :: !cur; go r
     | "I" :: k :: f :: r -> cur := OI (ni k, nati f) :: !cur; go r
     | "O" :: k :: f :: r -> cur := OO (ni k, nati f) :: !cur; go r
     | _ -> failwith "bad op" in
@@ -49,8 +53,12 @@ let loop_case toks =
     let phases = List.rev (if has_body then phases_rev else (List.rev cur :: phases_rev)) in
     let (x, fin) = run_script (nat_of_int 30000) rk (String.length pick > 0 && pick.[0] = 'h') (String.length pick > 0 && pick.[0] = 'a') (nati nfd) phases bodies in
     let subs = List.map (fun (k, v) -> soi (int_of_n k) ^ ":" ^ (match v with
-      | SP -> "p" | SPE -> "pe" | ST dl -> "t" ^ soi (int_of_n dl) | SI f -> "i" ^ soi (int_of_nat f) | SO f -> "o" ^ soi (int_of_nat f))) x.sout in
-    let log = List.map (fun ((h, c), t) -> soi (int_of_n h) ^ ":" ^ code_name c ^ "@" ^ soi (int_of_n t)) x.ms.log in
+      | SP -> "p" | SPE -> "pe" | ST dl -> "t" ^ soi (int_of_n dl) | SI f -> "i" ^ soi (int_of_nat f) | SO f -> "o" ^ soi (int_of_nat f)
+      | SRS f -> "r" ^ soi (int_of_nat f) | SWS f -> "w" ^ soi (int_of_nat f)
+      | SRA (f, n) -> "R" ^ soi (int_of_nat f) ^ "." ^ soi (int_of_n n) | SWA (f, n) -> "W" ^ soi (int_of_nat f) ^ "." ^ soi (int_of_n n))) x.sout in
+    let base_name n = (match n with 0 -> "ok" | 1 -> "can" | 2 -> "self" | 3 -> "sys9" | 4 -> "eof" | 5 -> "sys32" | _ -> "?") in
+    let num_name n = (let v = int_of_n n in if v < 10 then base_name v else base_name (v mod 10) ^ "/" ^ soi (v / 10 - 1)) in
+    let log = List.map (fun ((h, c), t) -> soi (int_of_n h) ^ ":" ^ num_name c ^ "@" ^ soi (int_of_n t)) x.olog in
     "loop sub=" ^ join subs ^ " log=" ^ join log ^ " flags=" ^ (if not fin then "FUEL" else if int_of_nat x.stage = 3 then "EXC-sys9" else "-") ^ " mode=" ^ pick
   | _ -> "loop BAD-CASE"
 
@@ -65,11 +73,13 @@ let pool_case toks =
   let x = run_pool_script (nat_of_int 2000) (parse toks) in
   let run = List.map (fun j -> soi (int_of_n j)) x.pp.plog in
   let cres = List.map (fun (k, r) -> soi (int_of_n k) ^ ":" ^ soi (int_of_n r)) x.pcres in
-  "pool run=" ^ join run ^ " cancel=" ^ join cres ^ " flags=-"
+  let stopn = (match x.pstopn with Some n -> soi (int_of_n n) | None -> "-") in
+  "pool run=" ^ join run ^ " cancel=" ^ join cres ^ " stop=" ^ stopn ^ " flags=-"
 
 let () = main_loop (function
   | "loop" :: r -> loop_case r
   | "pool" :: r -> pool_case r
   | "pstress" :: _ -> "pstress ok"
+  | "pstop" :: _ -> "pstop ok"
   | "lstress" :: _ -> "lstress ok"
   | _ -> "BAD-CASE")
